@@ -166,7 +166,6 @@ pub struct RecCipher {
     inner: Box<dyn Cipher>,
     id: usize,
     key: Mutex<Option<[u8; 32]>>,
-    in_rekey: Mutex<bool>,
     log: Log,
 }
 
@@ -203,20 +202,15 @@ impl Cipher for RecCipher {
         });
         r
     }
-    fn rekey(&mut self) {
-        // The trait's default algorithm, run through our own logged encrypt/set so that the
-        // wrapper keeps knowing the key; bracketed so checks can tell it from message traffic.
-        *self.in_rekey.lock().unwrap() = true;
-        self.log.push(Ev::RekeyBegin { id: self.id });
-        let mut ciphertext = [0u8; 48];
-        let l = self.encrypt(u64::MAX, &[], &[0u8; 32], &mut ciphertext);
-        assert_eq!(l, 48);
-        let mut key = [0u8; 32];
-        key.copy_from_slice(&ciphertext[..32]);
-        self.set(&key);
-        self.log.push(Ev::RekeyEnd { id: self.id });
-        *self.in_rekey.lock().unwrap() = false;
-    }
+    // `rekey` is deliberately NOT overridden: the trait's default algorithm (snow's own code in
+    // src/types.rs) then runs through this wrapper's logged `encrypt` and `set`, so the rekey
+    // encryption is part of the recorded history and the wrapper keeps knowing the key. (A
+    // backend-specific override of `rekey` would be bypassed; C15/C18 test the unwrapped objects.)
+}
+
+/// Is this logged encryption the REKEY operation of the specification (32 zero bytes, empty ad)?
+pub fn is_rekey_shape(ev: &Ev) -> bool {
+    matches!(ev, Ev::Enc { ad, pt, .. } if ad.is_empty() && pt.len() == 32 && pt.iter().all(|b| *b == 0))
 }
 
 pub struct RecDh {
@@ -300,7 +294,6 @@ impl CryptoResolver for VResolver {
                 inner: c,
                 id: l.fresh_id(),
                 key: Mutex::new(None),
-                in_rekey: Mutex::new(false),
                 log: l.clone(),
             })),
             None => Some(c),
